@@ -45,6 +45,12 @@ CHECKS['C02'] = ('model_checking',
     'Kernel = the closure inside the numpy.vectorize wrapper (wrapper validated concretely on 5874 pool cases); ^ numerics only on the pool; floats not on comparison paths; text operands len <= 2 ASCII. ' + TB,
     'DESIGN.md §3 C02')
 
+CHECKS['C10'] = ('exploration',
+    'CrossHair/z3 path exploration over boolean adjacency matrices and workbook selectors; the real cycle analysis and the real ExcelModel run on each explored path against a brute-force / lazy-evaluation oracle',
+    'Bounded exhaustive exploration driven by the symbolic executor: simple_cycles reports every elementary cycle exactly once on all 512 digraphs with <= 3 nodes (self-loops, all skip sets) and all 4096 loop-free digraphs on 4 nodes; the lazy-branch predicates of IF/IFS/IFERROR/IFNA for all in-cycle flag combinations (symbolic booleans); 432 workbooks built on a 3-cell dependency ring with plain / IF-then / IF-else / IFERROR-fallback / both-branch edges and both guard values: finish(circular=True).calculate() terminates, cells off the ring keep their values, unavoidable cycles give the circular error, rings closing only through unselected branches resolve to the lazily evaluated values, and every ordinary value reported equals the lazy value.',
+    'All variables are selectors (each path = one concrete graph / workbook, run natively); graphs <= 4 nodes, rings of 3 cells, no ranges or names on the cycle; cell order / hash seed outside. ' + TB,
+    'DESIGN.md §3 C10')
+
 NA = {
     'C15': 'the dependency closure is computed over openpyxl worksheets read from .xlsx files while mutating the schedula dispatcher; neither can be given a symbolic state (DESIGN §4)',
     'C16': 'placement is done by openpyxl range iteration zipped with np.ravel and compared by re-reading files: I/O and third-party C code, no encodable kernel (DESIGN §4)',
